@@ -301,6 +301,9 @@ pub struct Ep {
     pub responses: u64,
     /// client-side token store used for connections started from this endpoint
     pub token_store: Option<Arc<dyn proto::TokenStore>>,
+    /// rustls client state of this endpoint (holds its session tickets)
+    #[cfg(feature = "real")]
+    pub real_client: Option<Arc<proto::crypto::rustls::QuicClientConfig>>,
 }
 
 #[derive(Debug, Clone, PartialEq, Eq)]
@@ -477,6 +480,8 @@ impl World {
                 accept_errors: vec![],
                 responses: 0,
                 token_store: None,
+                #[cfg(feature = "real")]
+                real_client: None,
             });
         }
         Self {
@@ -550,7 +555,10 @@ impl World {
         let mut cfg = match self.lane {
             Lane::Null => ClientConfig::new(Arc::new(NullClientConfig { shared: self.eps[from].null_shared.clone() })),
             #[cfg(feature = "real")]
-            Lane::Real => crate::realcrypto::client_config(self.seed, from),
+            Lane::Real => {
+                let q = self.eps[from].real_client.get_or_insert_with(crate::realcrypto::client_crypto).clone();
+                ClientConfig::new(q)
+            }
             #[cfg(not(feature = "real"))]
             Lane::Real => panic!("real crypto lane not compiled in"),
         };
@@ -1085,9 +1093,42 @@ impl World {
             // 0-RTT rejection: early streams vanish; restart the plans
             let rejected = matches!(ev, Event::Connected) && conn.side == Side::Client && conn.c.has_0rtt() && !conn.c.accepted_0rtt();
             if rejected {
+                // (C17) at this instant the client has not sent a single 1-RTT byte yet: whatever
+                // the server application holds of this pair's client data is rejected early data
+                let pair = conn.pair;
+                let leaked: u64 = self.led.flows.iter().filter(|((p, wc, _), _)| *p == pair && *wc).map(|(_, f)| f.delivered.total()).sum();
+                let leaked_dgrams = self.led.dgrams.get(&(pair, true)).map_or(0, |d| d.received.len() as u64 + d.anonymous_received);
+                if leaked + leaked_dgrams > 0 {
+                    self.led.violate("C17", format!("pair {pair:x}: the server application received {leaked} stream bytes and {leaked_dgrams} datagrams of early data that was rejected"));
+                }
+                // the early streams are gone ...
+                for sid in conn.app.open_send_ids() {
+                    let id = proto::StreamId::from(VarInt::from_u64(sid).unwrap());
+                    match conn.c.send_stream(id).write(&[0]) {
+                        Err(proto::WriteError::ClosedStream) => self.mon.cnt.inc("c17.early_stream_closed_after_rejection"),
+                        other => self.led.violate("C17", format!("pair {pair:x}: write on early stream {id} after the rejection returned {other:?}, expected ClosedStream")),
+                    }
+                }
+                // ... and the connection starts over with the newly negotiated values
+                let p = conn.c.verif_probe();
+                if p.streams.next != [0, 0] || p.streams.data_sent != 0 || p.streams.send_streams != 0 {
+                    self.led.violate("C17", format!("pair {pair:x}: after the rejection stream numbering / accounting did not restart: next={:?} data_sent={} send_streams={}", p.streams.next, p.streams.data_sent, p.streams.send_streams));
+                }
+                if let Some(srv) = self.eps.iter().find_map(|e| e.spec.server.as_ref()) {
+                    let t = &srv.tcfg;
+                    if p.streams.max != [t.max_bidi, t.max_uni] || p.streams.max_data != t.rwnd {
+                        self.led.violate("C17", format!("pair {pair:x}: after the rejection the limits are not the newly negotiated ones: max streams {:?} (server now allows [{}, {}]), max_data {} (server now allows {})", p.streams.max, t.max_bidi, t.max_uni, p.streams.max_data, t.rwnd));
+                    }
+                }
+                let conn = self.eps[ei].conns.get_mut(&ch).unwrap();
                 conn.app.requeue_all();
-                self.mon.on_0rtt_rejected(ei, ch, conn.pair, &mut self.led);
+                // what is written from now on is new data: forget the rejected attempt
+                *self.led.epoch.entry(pair).or_insert(0) += 1;
+                self.led.flows.retain(|(p, wc, _), _| !(*p == pair && *wc));
+                self.led.dgrams.remove(&(pair, true));
+                self.mon.on_0rtt_rejected(ei, ch, pair, &mut self.led);
             }
+            let conn = self.eps[ei].conns.get_mut(&ch).unwrap();
             conn.app.on_event(&mut conn.c, ev, &mut self.led);
         }
     }
